@@ -273,6 +273,39 @@ def check_port_name(port):
     return []
 
 
+PATHS_CASES = [{'tank': ()}, {'tank': ('deep', 'store')}, {}, {'tank': ('tank',)}]
+
+
+def check_add_timeline_paths(paths):
+    """the composition helper add_timeline wires each timeline port to the path given for it in `paths` (the root path () is a path
+    like any other), to the store named after the port otherwise: every event reaches the variable at that path"""
+    from vivarium.core.composition import add_timeline
+
+    class Tank(Process):
+        defaults = {'timestep': 100.0, 'at': ()}
+
+        def ports_schema(self):
+            return {'tank': {'level': {'_default': 0, '_updater': 'set', '_emit': True}, 'valve': {'_default': 'closed', '_updater': 'set'}}}
+
+        def next_update(self, timestep, states):
+            return {}
+    where = tuple(paths.get('tank', ('tank',)))
+    procs, topo = {'holder': Tank()}, {'holder': {'tank': where}}
+    try:
+        add_timeline(procs, topo, {'timeline': [(1, {('tank', 'level'): 50}), (2, {('tank', 'valve'): 'half'})], 'paths': dict(paths)})
+        eng = Engine(processes=procs, topology=topo, display_info=False, emitter='null')
+        eng.update(4)
+        node = eng.state.get_value()
+        for p_ in where:
+            node = node[p_]
+    except Exception as e:
+        return ['add_timeline with paths %r: %s: %s' % (paths, type(e).__name__, str(e)[:160])]
+    if (node.get('level'), node.get('valve')) != (50, 'half'):
+        return ['add_timeline with paths %r: the port is wired %r; level, valve at %s are %r, %r after the run, the events set 50 and half'
+                % (paths, topo.get('timeline', {}).get('tank'), where, node.get('level'), node.get('valve'))]
+    return []
+
+
 def ser(events):
     return [[t, [[list(k), v] for k, v in ch.items()]] for t, ch in events]
 
@@ -288,6 +321,10 @@ def main():
     a = ap.parse_args()
     if a.replay:
         d = json.load(open(a.replay))['scenario']
+        if 'paths' in d:
+            fails = check_add_timeline_paths({k: tuple(v) for k, v in d['paths'].items()})
+            L.emit_result({'status': 'reproduced' if fails else 'not-reproduced', 'failed': fails})
+            return
         if 'port' in d:
             fails = check_port_name(d['port'])
             L.emit_result({'status': 'reproduced' if fails else 'not-reproduced', 'failed': fails})
@@ -339,6 +376,15 @@ def main():
                 break
         if len(failures) >= 3:
             break
+    for pi, paths in enumerate(PATHS_CASES):
+        if len(failures) >= 3:
+            break
+        evaluations += 1
+        distinct.add('paths-%d' % pi)
+        fails = check_add_timeline_paths(paths)
+        if fails:
+            rp = L.write_replay(a.out, 'C19', 'paths%d' % pi, {'paths': {k: list(v) for k, v in paths.items()}}, fails, extra={'driver': 'bounded.c19'})
+            failures.append({'id': 'C19.bounded.add-timeline-paths#%d: %s' % (pi, fails[0][:240]), 'replay': rp})
     for port in PORT_NAMES:
         if len(failures) >= 3:
             break
